@@ -68,6 +68,9 @@ func (ps *PartialSignature[P, B, S]) UnmarshalCBOR(data []byte) error {
 	if err != nil {
 		return errs.Wrap(err).WithMessage("failed to unmarshal dkls23 PartialSignature")
 	}
+	if dto == nil {
+		return errs.Wrap(serde.ErrNull).WithMessage("failed to unmarshal dkls23 PartialSignature")
+	}
 	ps2, err := NewPartialSignature(dto.R, dto.U, dto.W)
 	if err != nil {
 		return errs.Wrap(err).WithMessage("failed to create dkls23 PartialSignature")
